@@ -194,6 +194,7 @@ type StaticCfg struct {
 	OptionalCols                                                                                             int  // out of 4: fraction of optional columns present
 	Interleave                                                                                               bool // stop_times of different trips interleaved
 	BlankAgencyID                                                                                            bool // single agency + routes without agency_id
+	IDStyle                                                                                                  int  // 0 prefixed (s0, r1), 1 numeric (101, 102), 2 dictionary words incl. pairs that collide under common 32-bit hashes
 }
 
 func DrawStaticCfg(t *sim.T, big bool) StaticCfg {
@@ -236,7 +237,26 @@ func DrawStaticCfg(t *sim.T, big bool) StaticCfg {
 	if c.Agencies == 1 {
 		c.BlankAgencyID = t.Chance(1, 2)
 	}
+	c.IDStyle = t.Weighted(6, 2, 1)
 	return c
+}
+
+// collidingWords: pairs that collide under FNV-1a/32 (costarring/liquid, declinate/macallums, altarage/zinke),
+// FNV-1/32 (creamwove/quists), CRC-32 (plumless/buckeroo) and the 31-multiplier string hash (Aa/BB, AaAa/BBBB, AaBB/BBAa).
+var collidingWords = []string{"costarring", "liquid", "declinate", "macallums", "altarage", "zinke", "creamwove", "quists", "plumless", "buckeroo", "Aa", "BB", "AaAa", "BBBB", "AaBB", "BBAa"}
+
+// entityID spells the id of the i-th entity of a table according to the feed's id style.
+func entityID(style int, prefix string, i int, base int) string {
+	switch style {
+	case 1:
+		return fmt.Sprint(base + i)
+	case 2:
+		if i < len(collidingWords) {
+			return collidingWords[i]
+		}
+		return fmt.Sprintf("%s%d", collidingWords[i%len(collidingWords)], i)
+	}
+	return fmt.Sprintf("%s%d", prefix, i)
 }
 
 var tzPool = []string{"America/New_York", "UTC", "Europe/Paris", "Asia/Tokyo"}
@@ -355,7 +375,7 @@ func GenStatic(t *sim.T, c StaticCfg) *StaticModel {
 	{
 		var rows [][]string
 		for i := 0; i < c.Agencies; i++ {
-			id := fmt.Sprintf("ag%d", i)
+			id := entityID(c.IDStyle, "ag", i, 1)
 			m.AgencyIDs = append(m.AgencyIDs, id)
 			rows = append(rows, []string{id, name(t, c, "Agency", i), fmt.Sprintf("http://a%d.example", i), tzPool[t.Choose(len(tzPool))], "en", "555-01" + fmt.Sprint(i), "http://fare.example", "a@example.com"})
 		}
@@ -366,7 +386,7 @@ func GenStatic(t *sim.T, c StaticCfg) *StaticModel {
 	{
 		var rows [][]string
 		for i := 0; i < c.Routes; i++ {
-			id := fmt.Sprintf("r%d", i)
+			id := entityID(c.IDStyle, "r", i, 10)
 			m.RouteIDs = append(m.RouteIDs, id)
 			ag := m.AgencyIDs[t.Choose(len(m.AgencyIDs))]
 			if c.BlankAgencyID {
@@ -382,7 +402,7 @@ func GenStatic(t *sim.T, c StaticCfg) *StaticModel {
 		var rows [][]string
 		depth := make([]int, c.Stops)
 		for i := 0; i < c.Stops; i++ {
-			id := fmt.Sprintf("s%d", i)
+			id := entityID(c.IDStyle, "s", i, 101)
 			m.StopIDs = append(m.StopIDs, id)
 		}
 		// choose depth: 0 = root (station), 1 = platform, 2 = boarding area
@@ -439,7 +459,7 @@ func GenStatic(t *sim.T, c StaticCfg) *StaticModel {
 		nCal = 0
 	}
 	for i := 0; i < c.Services; i++ {
-		m.ServiceIDs = append(m.ServiceIDs, fmt.Sprintf("svc%d", i))
+		m.ServiceIDs = append(m.ServiceIDs, entityID(c.IDStyle, "svc", i, 1))
 	}
 	if c.HasCalendar {
 		var rows [][]string
@@ -468,7 +488,7 @@ func GenStatic(t *sim.T, c StaticCfg) *StaticModel {
 	if c.HasShapes {
 		var rows [][]string
 		for i := 0; i < c.Shapes; i++ {
-			id := fmt.Sprintf("sh%d", i)
+			id := entityID(c.IDStyle, "sh", i, 5000)
 			m.ShapeIDs = append(m.ShapeIDs, id)
 		}
 		// points of different shapes interleaved, sequences not in row order
@@ -497,7 +517,7 @@ func GenStatic(t *sim.T, c StaticCfg) *StaticModel {
 	{
 		var rows [][]string
 		for i := 0; i < c.Trips; i++ {
-			id := fmt.Sprintf("t%d", i)
+			id := entityID(c.IDStyle, "t", i, 70000)
 			m.TripIDs = append(m.TripIDs, id)
 			shape := ""
 			if len(m.ShapeIDs) > 0 && t.Chance(2, 3) {
@@ -580,4 +600,18 @@ func (m *StaticModel) Summary() string {
 		parts = append(parts, fmt.Sprintf("%s:%dx%d", strings.TrimSuffix(tb.Name, ".txt"), len(tb.Rows), len(tb.Header)))
 	}
 	return strings.Join(parts, " ")
+}
+
+// GiantStaticCfg is a feed far beyond the usual sizes (tens of thousands of shape points and stop times):
+// thresholds at which implementations switch algorithms (parallel paths, batching). Thorough tier only.
+func GiantStaticCfg(t *sim.T) StaticCfg {
+	c := DrawStaticCfg(t, false)
+	c.Stops = 400 + t.Choose(400)
+	c.Trips = 5000 + t.Choose(3000)
+	c.StopTimesPerTrip = 9 // about 5 per trip on average -> 25-40 thousand rows
+	c.HasShapes = true
+	c.Shapes = 9000 + t.Choose(4000)
+	c.ShapePts = 16 // about 8.5 per shape -> 75-110 thousand rows
+	c.Quoting = false
+	return c
 }
